@@ -28,60 +28,75 @@ POS_UNT = ['1', '2', ' 3 ', '2.5', 'INF', 'NaN', '-1', '0']
 LENGTHS = [0, 0, 1, 1, 2, 2, 3, 3, 3, 4, 4, 5, 6, 8]
 
 
+_INTS_UPTO = {}
+
+
+def _upto(n):
+    """cached st.integers(0, n) (building strategy objects per draw is the dominant cost otherwise)"""
+    s = _INTS_UPTO.get(n)
+    if s is None:
+        s = _INTS_UPTO[n] = st.integers(0, n)
+    return s
+
+
 def _sf(draw, xs):
-    return draw(st.sampled_from(xs))
+    return xs[draw(_upto(len(xs) - 1))]
+
+
+def _pool(*weighted):
+    """flat list realising integer weights: (weight, [asts]) -> weight copies of the pool spread evenly"""
+    out = []
+    for w, asts in weighted:
+        reps = max(1, round(w * 12 / len(asts)))
+        for a in asts:
+            out.extend([a] * reps)
+    return out
+
+
+_I = [['int', x] for x in INTS]
+_BI = [['int', x] for x in BIG_INTS]
+_D = [['dec', x] for x in DECS]
+_F = [['dbl', x] for x in DBLS]
+_FL = [['flt', x] for x in FLTS]
+_S = [['str', x] for x in STRS]
+_UN = [['unt', x] for x in UNTS_NUM]
+_UA = [['unt', x] for x in UNTS_ANY]
+_B = [['bool', True], ['bool', False]]
+ITEM_POOL = {
+    'i': _pool((96, _I), (4, _BI)),
+    'n': _pool((38, _I), (2, _BI), (25, _D), (30, _F), (5, _FL)),
+    's': _S,
+    'u': _pool((80, _UN), (20, _UA)),
+    'm': _pool((16, _I), (8, _D), (10, _F), (2, _FL), (30, _S), (15, _B), (12, _UA)),
+}
 
 
 def lit_item(draw, flavor):
-    """AST of one literal item of the flavour"""
-    k = draw(st.integers(0, 99))
-    if flavor == 'i':
-        return ['int', _sf(draw, BIG_INTS if k < 4 else INTS)]
-    if flavor == 'n':
-        if k < 40:
-            return ['int', _sf(draw, BIG_INTS if k < 2 else INTS)]
-        if k < 65:
-            return ['dec', _sf(draw, DECS)]
-        if k < 95:
-            return ['dbl', _sf(draw, DBLS)]
-        return ['flt', _sf(draw, FLTS)]
-    if flavor == 's':
-        return ['str', _sf(draw, STRS)]
-    if flavor == 'u':
-        return ['unt', _sf(draw, UNTS_NUM if k < 80 else UNTS_ANY)]
-    # 'm'
-    if k < 35:
-        return lit_item(draw, 'n')
-    if k < 65:
-        return ['str', _sf(draw, STRS)]
-    if k < 80:
-        return ['bool', k % 2 == 0]
-    if k < 92:
-        return ['unt', _sf(draw, UNTS_ANY)]
-    return ['int', _sf(draw, INTS)]
+    """AST of one literal item of the flavour (a single draw)"""
+    return _sf(draw, ITEM_POOL[flavor])
 
 
 def lit_seq(draw, flavor, min_len=0):
     """AST of a literal sequence"""
-    if flavor == 'u' and draw(st.integers(0, 9)) < 6:
+    if flavor == 'u' and draw(_upto(9)) < 6:
         return ['nodes', _sf(draw, NODE_KEYS)]
     n = max(min_len, _sf(draw, LENGTHS))
     if n == 0:
         return ['empty']
-    if flavor == 'i' and draw(st.integers(0, 9)) < 2:
+    if flavor == 'i' and draw(_upto(9)) < 2:
         lo = _sf(draw, [1, 1, 0, 2, -1, 5])
         return ['to', ['int', lo], ['int', lo + n - 1]]
     items = [lit_item(draw, flavor) for _ in range(n)]
-    if n >= 2 and draw(st.integers(0, 9)) < 4:       # force a duplicate
-        items[draw(st.integers(0, n - 1))] = items[draw(st.integers(0, n - 1))]
-    if n == 1 and draw(st.booleans()):
+    if n >= 2 and draw(_upto(9)) < 4:       # force a duplicate
+        items[draw(_upto(n - 1))] = items[draw(_upto(n - 1))]
+    if n == 1 and (draw(_upto(1)) == 1):
         return items[0]
     return ['seq', *items]
 
 
 def pos_arg(draw, integer_typed=False):
     """AST of a literal position/length argument with boundary values"""
-    k = draw(st.integers(0, 99))
+    k = draw(_upto(99))
     if integer_typed:
         if k < 86:
             return ['int', _sf(draw, POS_INT)]
@@ -121,7 +136,7 @@ class Gen:
         self.nvar = 0
 
     def k(self, n=99):
-        return self.draw(st.integers(0, n))
+        return self.draw(_upto(n))
 
     def fresh(self):
         self.nvar += 1
@@ -278,7 +293,7 @@ class Gen:
             return ['call', _sf(self.draw, ['sum', 'min', 'max', 'count']), [s('i')]]
         if k < 84 and flavor in 'sm':
             if self.v == '31' and self.k() < 40:
-                src = self.seq(_sf(self.draw, 'insm'), d + 1, sc)
+                src = self.seq(_sf(self.draw, 'insmu'), d + 1, sc)
             else:
                 src = s('s')
             if self.v != '20' and self.k() < 25:
@@ -299,30 +314,30 @@ TOP = ((), None)
 @st.composite
 def nested_program(draw, version='31', max_depth=3):
     g = Gen(draw, version, max_depth)
-    k = draw(st.integers(0, 99))
+    k = draw(_upto(99))
     if k < 70:
-        return g.seq(draw(st.sampled_from('iiinnsmu')), 0, TOP)
+        return g.seq(_sf(draw, 'iiinnsmu'), 0, TOP)
     if k < 85:
         return g.boolean(0, TOP)
     if k < 93:
         return g.int1(0, TOP)
     # implementation-dependent order: only at the root
-    return ['call', draw(st.sampled_from(['distinct-values', 'unordered'])),
-            [g.seq(draw(st.sampled_from('insum')), 1, TOP)]]
+    return ['call', _sf(draw, ['distinct-values', 'unordered']),
+            [g.seq(_sf(draw, 'insum'), 1, TOP)]]
 
 
 def direct_calls(draw, version):
     """one generated environment (S, T, a, b, x) -> the whole C08 function list applied to it"""
-    fl = draw(st.sampled_from('iiinnnssmmuu'))
+    fl = _sf(draw, 'iiinnnssmmuu')
     S = lit_seq(draw, fl)
-    T = lit_seq(draw, fl if draw(st.integers(0, 9)) < 7 else 'm')
+    T = lit_seq(draw, fl if draw(_upto(9)) < 7 else 'm')
     a, b = pos_arg(draw), pos_arg(draw)
     ia = pos_arg(draw, True)
-    x = lit_item(draw, fl if draw(st.integers(0, 9)) < 8 else 'm')
-    if fl == 'u' and draw(st.booleans()):
-        x = ['str', draw(st.sampled_from(['1', '2', 'x', '']))]
-    zero = draw(st.sampled_from([['empty'], ['int', 0], ['dec', '0.0'], ['dbl', '0.0'], ['str', 'z'], ['seq', ['int', 1], ['int', 2]]]))
-    sep = ['str', draw(st.sampled_from(['', ',', '-', ' ']))]
+    x = lit_item(draw, fl if draw(_upto(9)) < 8 else 'm')
+    if fl == 'u' and (draw(_upto(1)) == 1):
+        x = ['str', _sf(draw, ['1', '2', 'x', ''])]
+    zero = _sf(draw, [['empty'], ['int', 0], ['dec', '0.0'], ['dbl', '0.0'], ['str', 'z'], ['seq', ['int', 1], ['int', 2]]])
+    sep = ['str', _sf(draw, ['', ',', '-', ' '])]
     c = lambda name, *args: ['call', name, list(args)]     # noqa: E731
     out = [c('count', S), c('empty', S), c('exists', S), c('reverse', S),
            c('subsequence', S, a), c('subsequence', S, a, b), c('insert-before', S, ia, T), c('remove', S, ia),
@@ -330,11 +345,21 @@ def direct_calls(draw, version):
            c('zero-or-one', S), c('one-or-more', S), c('exactly-one', S),
            c('sum', S), c('sum', S, zero), c('avg', S), c('min', S), c('max', S),
            c('string-join', S, sep),
-           ['filter', S, a], ['filter', S, ['vcmp', draw(st.sampled_from(_CMP)), ['pos'], a]],
-           ['filter', S, ['vcmp', draw(st.sampled_from(_CMP)), ['pos'], ['arith', '-', ['last'], ['int', draw(st.sampled_from([0, 1, 2]))]]]],
-           ['seq', S, T], ['to', ia, draw(st.sampled_from([['int', 3], ['int', 0], ['call', 'count', [S]]]))],
+           ['filter', S, a], ['filter', S, ['vcmp', _sf(draw, _CMP), ['pos'], a]],
+           ['filter', S, ['vcmp', _sf(draw, _CMP), ['pos'], ['arith', '-', ['last'], ['int', _sf(draw, [0, 1, 2])]]]],
+           ['seq', S, T], ['to', ia, _sf(draw, [['int', 3], ['int', 0], ['call', 'count', [S]]])],
            ['for', [['x', S]], ['seq', ['var', 'x'], ['var', 'x']]],
            ['some', [['x', S], ['y', T]], ['call', 'exists', [['seq', ['var', 'x'], ['var', 'y']]]]],
+           ['filter', S, ['gcmp', _sf(draw, ['=', '!=', '<', '>=']), ['pos'], ['seq', ['int', 1], ia]]],
+           ['filter', ['filter', S, ['vcmp', _sf(draw, _CMP), ['pos'], a]], b],
+           ['filter', c('subsequence', S, a, b), ['last']],
+           ['filter', S, ['and', ['vcmp', 'gt', ['pos'], ['int', 1]], ['vcmp', 'lt', ['pos'], ['last']]]],
+           ['for', [['x', S], ['y', c('subsequence', T, ['int', 1], c('count', ['var', 'x']))]],
+            c('count', ['seq', ['var', 'x'], ['var', 'y']])],
+           ['every', [['x', c('reverse', S)], ['y', ['seq', ['var', 'x'], T]]],
+            c('exists', ['filter', ['seq', ['var', 'x'], ['var', 'y']], ['int', 2]])],
+           c('count', c('insert-before', c('remove', S, ia), ia, T)),
+           c('reverse', c('subsequence', c('reverse', S), a)),
            ]
     if version != '20':
         out += [c('head', S), c('tail', S), c('string-join', S), ['map', S, ['seq', ['pos'], ['last']]],
@@ -344,7 +369,7 @@ def direct_calls(draw, version):
 
 @st.composite
 def direct_batch(draw):
-    version = draw(st.sampled_from(['31', '31', '31', '30', '20']))
+    version = _sf(draw, ['31', '31', '31', '30', '20'])
     return {'v': version, 'asts': direct_calls(draw, version)}
 
 
@@ -382,36 +407,42 @@ def subst_var_by_ctx(n, name):
     return [subst_var_by_ctx(c, name) for c in n]
 
 
+def _numeric_pos(draw):
+    while True:
+        a = pos_arg(draw)
+        if a[0] in ('int', 'dec', 'dbl', 'flt'):
+            return a
+
+
 @st.composite
 def equiv_case(draw):
-    v = draw(st.sampled_from(['31', '31', '30', '20']))
-    rel = draw(st.sampled_from(RELATIONS_20 if v == '20' else RELATIONS_30))
+    v = _sf(draw, ['31', '31', '30', '20'])
+    rel = _sf(draw, RELATIONS_20 if v == '20' else RELATIONS_30)
     g = Gen(draw, v, max_depth=2)
-    fl = draw(st.sampled_from('iiinnssmu'))
+    fl = _sf(draw, 'iiinnssmu')
     if rel in ('sum-avg',):
-        fl = draw(st.sampled_from('iii'))
+        fl = _sf(draw, 'iii')
     if rel in ('minmax-bound', 'index-of-def'):
-        fl = draw(st.sampled_from('iis'))
+        fl = _sf(draw, 'iis')
     if rel == 'distinct-bound':
-        fl = draw(st.sampled_from('iisn'))
-    S = g.seq(fl, 0 if draw(st.integers(0, 9)) < 6 else 1, TOP)
-    if rel == 'sum-avg' and draw(st.integers(0, 9)) < 4:
-        S = ['seq', *[draw(st.sampled_from([['int', _sf(draw, INTS)], ['dec', _sf(draw, DECS)]]))
-                      for _ in range(draw(st.integers(1, 6)))]]
+        fl = _sf(draw, 'iisn')
+    S = g.seq(fl, 0 if draw(_upto(9)) < 6 else 1, TOP)
+    if rel == 'sum-avg' and draw(_upto(9)) < 4:
+        S = ['seq', *[_sf(draw, _I + _D) for _ in range(1 + draw(_upto(5)))]]
     case = {'v': v, 'rel': rel, 'S': S, 'fl': fl}
     scx = ((('x', 'item', fl),), None)
     if rel in ('every-some', 'filter-for', 'some-filter'):
         case['P'] = g.boolean(1, scx)
     if rel in ('for-map',):
-        case['F'] = g.seq(draw(st.sampled_from('iinsm')), 1, scx)
-    if rel in ('subseq3', 'subseq2'):
-        case['a'] = pos_arg(draw)
-        case['b'] = pos_arg(draw)
+        case['F'] = g.seq(_sf(draw, 'iinsm'), 1, scx)
+    if rel in ('subseq3', 'subseq2'):      # numeric arguments only (the equivalence is stated for xs:double)
+        case['a'] = _numeric_pos(draw)
+        case['b'] = _numeric_pos(draw)
     if rel in ('insert-count', 'remove-filter'):
-        case['i'] = ['int', _sf(draw, POS_INT)] if draw(st.integers(0, 9)) < 7 else g.int1(1, TOP)
+        case['i'] = ['int', _sf(draw, POS_INT)] if draw(_upto(9)) < 7 else g.int1(1, TOP)
     if rel in ('insert-count', 'comma-assoc'):
-        case['T'] = g.seq(draw(st.sampled_from('insmu')), 1, TOP)
-        case['U'] = lit_seq(draw, draw(st.sampled_from('insmu')))
+        case['T'] = g.seq(_sf(draw, 'insmu'), 1, TOP)
+        case['U'] = lit_seq(draw, _sf(draw, 'insmu'))
     if rel == 'index-of-def':
         case['x'] = lit_item(draw, fl)
     return case
